@@ -28,6 +28,7 @@ EXPLANATION = (
     ' Round 4: (11) LOOPFRESH and (12) PAIRLEN on apply_text_layout / apply_target_encoding (attribute and charset run lengths are the length of the piece just appended); (13) no display code indexes a palette entry with a constant position.'
     ' Round-4 triage: (14) NONE-SENTINEL on attribute maps; (15) _tagmarkup_recurse reads the last run only when both run lists are non-empty; (16) the 88-colour fallback helper of register_palette_entry examines every comma-separated setting of a description. Round 5: (17) the rendition model of draw_screen (shared with C04.13); (18) LayoutSegment.offs (None = alignment padding, 0 = first character) is never tested for truthiness by its consumers; (19) every emitting branch of the segment loop of apply_text_layout records attribute and charset runs.'
     ' Round 6: (16) the hN bound of the 88-colour fallback lies between the number of basic colours and the number of leading colour numbers on which the folded 88- and 256-colour palettes agree; (20) INV restricted to Text / AttrMap / AttrWrap / SelectableIcon / Edit: every write of markup or attribute-map state invalidates (a retagged text with the same characters otherwise keeps its old attributes on screen).'
+    ' (21) RUNPOS: the attribute runs _tagmarkup_recurse returns have a length shown positive - an empty string in the markup creates no run (fix f28b40b: the rendered row ended at the zero-length run).'
 )
 NOT_DECIDED = "Run-length alignment of attributes through layout and encoding, composition order of nested maps as a value statement, the SGR text produced for every AttrSpec and its decoding."
 ASSUMPTIONS = []
@@ -455,13 +456,18 @@ def run(ctx: Ctx):
     # what is displayed with which attribute is widget state: the widgets that carry markup / attribute maps
     # invalidate whenever that state is written (shared engine with C06.1a, restricted to these classes)
     r20 = _inv.run_inv(ctx.p, "C17.20", floor_classes=3, floor_nontrivial=3, exceptions=_INVX, only_classes={"Text", "AttrMap", "AttrWrap", "SelectableIcon", "Edit"})
-    return [r17, r18, r20, rule_charset_pad(ctx), rule_palette_order(ctx), rule_palette_notify(ctx), rule_palette_cache(ctx), rule_palette_total(ctx), rule_attrmap(ctx), r6, r7, r8, r9, r10, r11, r12, rule_palette_depth_index(ctx), _sentinel(ctx), rule_markup_index_guard(ctx), rule_desc_tokens(ctx)]
+    from ..rules import runpos as _runpos
+
+    r21 = _runpos.run_runpos_returns(ctx.p, "C17.21", ["urwid.util._tagmarkup_recurse"], floor=1)
+    return [r17, r18, r20, r21, rule_charset_pad(ctx), rule_palette_order(ctx), rule_palette_notify(ctx), rule_palette_cache(ctx), rule_palette_total(ctx), rule_attrmap(ctx), r6, r7, r8, r9, r10, r11, r12, rule_palette_depth_index(ctx), _sentinel(ctx), rule_markup_index_guard(ctx), rule_desc_tokens(ctx)]
 
 
 _CM = "urwid/display/common.py"
 _RW = "urwid/display/_raw_display_base.py"
 _HT = "urwid/display/html_fragment.py"
 MUTANTS = [
+    Mut("markup-empty-string-zero-run", "urwid/util.py", "_tagmarkup_recurse", "    return [tm], ([(attr, len(tm))] if tm else [])\n", "    return [tm], [(attr, len(tm))]\n", "RUNPOS|util._tagmarkup_recurse|run length len(tm) not shown positive"),
+    Mut("twin-markup-empty-string-early-return", "urwid/util.py", "_tagmarkup_recurse", "    return [tm], ([(attr, len(tm))] if tm else [])\n", "    if not tm:\n        return [tm], []\n    return [tm], [(attr, len(tm))]\n", twin=True),
     Mut("large-h-bound-88", _CM, "BaseScreen.register_palette_entry", "int(part[1:], 10) > 15:", "int(part[1:], 10) > 87:", "SIB|display.common.BaseScreen.register_palette_entry.<locals>.large_h|large_h: bound 88"),
     Mut("twin-large-h-bound-ge-16", _CM, "BaseScreen.register_palette_entry", "int(part[1:], 10) > 15:", "int(part[1:], 10) >= _CUBE_START:", twin=True),
     Mut("pad-segment-recognised-by-truthy-offset", "urwid/canvas.py", "apply_text_layout", "            elif s.offs is not None:", "            elif s.offs:", "SENTINEL|canvas.apply_text_layout"),
